@@ -223,12 +223,18 @@ func (s *Solver) OneShotRace(assume []string, wantModel bool, vars []string, tim
 		}
 	}
 	script := sb.String()
+	if v := os.Getenv("VERIF_RACE_MS"); v != "" { // experiments only: shrink the budget to collect hard queries
+		fmt.Sscanf(v, "%d", &timeoutMs)
+	}
 	type ans struct {
 		r     SatResult
 		model map[string]string
 		errs  string
 	}
-	bins := []string{"z3-new", "z3"}
+	// cvc5 is a third racer whose answer is used only when it is "unsat" (no model has to be
+	// read back from it); it decides some of the mixed Int/FP queries in 0.1 s that cost z3
+	// 10-45 s, which made one C02.Step obligation time out on a loaded machine
+	bins := []string{"z3-new", "z3", "cvc5"}
 	ctx, cancel := context.WithCancel(context.Background())
 	defer cancel()
 	ch := make(chan ans, len(bins))
@@ -237,7 +243,19 @@ func (s *Solver) OneShotRace(assume []string, wantModel bool, vars []string, tim
 		go func(bin string) {
 			cmd := exec.CommandContext(ctx, bin, "-in", "-smt2", fmt.Sprintf("-t:%d", timeoutMs))
 			cmd.Stdin = strings.NewReader(script)
+			if bin == "cvc5" {
+				cmd = exec.CommandContext(ctx, "cvc5", "--lang=smt2", fmt.Sprintf("--tlimit=%d", timeoutMs))
+				cmd.Stdin = strings.NewReader("(set-logic ALL)\n" + script)
+			}
 			out, _ := cmd.CombinedOutput()
+			if bin == "cvc5" {
+				if strings.HasPrefix(strings.TrimSpace(string(out)), "unsat") {
+					ch <- ans{RUnsat, nil, ""}
+				} else {
+					ch <- ans{RUnknown, nil, ""}
+				}
+				return
+			}
 			txt := string(out)
 			first, rest := txt, ""
 			if i := strings.Index(txt, "\n"); i >= 0 {
